@@ -120,6 +120,30 @@ static void acc_events(const JSON& a, vt::Rng& r, const string& aj) {
     j.str("e", "size").raw("a", aj).str("out", out).num("n", n);
     tr.emit(j);
   }
+  {
+    // empty() and clear(): containers only; clear() on a copy (which must not affect the original)
+    string out = "ok";
+    long long e = 0;
+    guarded([&] { e = a.empty(); }, out);
+    vt::J j;
+    j.str("e", "empty").raw("a", aj).str("out", out).num("n", e);
+    tr.emit(j);
+    JSON copy(a);
+    string out2 = "ok";
+    guarded([&] { copy.clear(); }, out2);
+    vt::J k;
+    k.str("e", "clear").raw("a", aj).str("out", out2).raw("val", dumpv(copy)).raw("orig", dumpv(a));
+    tr.emit(k);
+    // non-const element access returns a reference into the value: writing through it changes exactly that element
+    if (a.is_list() && a.size() > 0) {
+      JSON c2(a);
+      size_t idx = r.below(c2.size());
+      c2.at(idx) = JSON("replaced", 8);
+      vt::J m;
+      m.str("e", "setat").raw("a", aj).num("index", (long long)idx).raw("val", dumpv(c2));
+      tr.emit(m);
+    }
+  }
   // element access
   for (int t = 0; t < 6; t++) {
     bool by_key = r.chance(50);
